@@ -2,7 +2,7 @@
 
 CFG = {'module': 'Dnp3.Props.C02',
  'gen': [],
- 'engines': ['pairdata', 'pairmerge', 'db', 'pairtcp'],
+ 'engines': ['pairdata', 'pairmerge', 'db', 'pairtcp', 'master'],
  'engine_model': {'pairsync': 'pair', 'pairdata': 'pair'},
  'monitors': ['converged_after_quiescence',
               'nothing_fabricated',
@@ -136,7 +136,12 @@ CFG = {'module': 'Dnp3.Props.C02',
          'an independent mirror database, event ledger and wire account. Engine db (see C03): the '
          'event-detection rule the convergence rests on — an update creates an event iff the flags changed '
          'or the value left the dead-band around the value LAST REPORTED — with non-zero dead-bands and slow '
-         'drift, on the real Database (the pair engine itself configures dead-band 0).',
+         'drift, on the real Database (the pair engine itself configures dead-band 0).  engine master '
+         "(shared with C17): the master's automatic start-up tasks (disable unsolicited / integrity poll / "
+         'enable unsolicited) are re-armed whenever a session ends — link error, cut, or the application '
+         'disabling and re-enabling the channel — and after a restart indication, so that every new session '
+         'begins with an integrity poll (monitors startup_order, idle_means_nothing_due, unsolicited_gated; '
+         'S164).',
  'trusted_base': ['hand-written Lean models of the outstation session + database and of the master session '
                   '(as for C03-C05, C11-C17), composed in Model/Pair.lean with two FIFO queues; tied by '
                   'differential execution of BOTH real tasks joined in process by a scripted relay (engine '
@@ -184,4 +189,5 @@ CFG = {'module': 'Dnp3.Props.C02',
                                  'server_replaces_session',
                                  'no_panic',
                                  'no_hang',
-                                 'harness_ok']}}
+                                 'harness_ok'],
+                     'master': ['startup_order', 'idle_means_nothing_due', 'unsolicited_gated']}}
